@@ -269,6 +269,26 @@ def build(tier, seed):
                       f"{kind} simulator: final state of a 3-qubit circuit of generic gates with phase-only operations interleaved equals the ordered product "
                       f"applied to a generic / the default initial state", timeout=300))
 
+    # ---- all circuit lengths / widths: structure of to_unitary and concatenation over the abstract gate model (Engine V)
+    from vfw import cmodel, vcontract as vc
+    cs = cmodel.contracts()
+    fbn = vprop.enum_ob("x", [], lambda: range(3), _check_native, "").run
+
+    def setup_self(args, ns):
+        args["self"] = cmodel.mk_circuit(ns, "self")
+        cmodel.axioms()
+
+    def setup_two(args, ns):
+        args["other"] = cmodel.mk_circuit(ns, "other")
+        args["circuit"] = cmodel.mk_circuit(ns, "circuit")
+        cmodel.axioms()
+    obs.append(vprop.fn_ob("C01", cs["to_unitary"], {}, call=lambda ns, a: a["self"].to_unitary(), setup=setup_self, overrides=cmodel.overrides(), fallback=fbn,
+                           obid="C01.to_unitary.all_lengths.contract", timeout_ms=30000,
+                           desc="for circuits of ANY length and width: to_unitary = reduce(matmul) over [lift(op_{m-1}), ..., lift(op_0)] on the circuit's own width (loop invariant), "
+                                "identity for the empty circuit, ValueError iff some operation is not a gate operation"))
+    obs.append(vprop.fn_ob("C01", cs["append"], {}, call=lambda ns, a: ns["_append_circuit"](a["other"], a["circuit"]), setup=setup_two, overrides=cmodel.overrides(), fallback=fbn,
+                           obid="C01.append_circuit.all_lengths.contract", timeout_ms=30000,
+                           desc="for circuits of ANY length: c1 + c2 has the operations of c1 followed by those of c2 and the larger register width"))
     obs.append(vprop.enum_ob("C01.native.enum", FNL + FNC, lambda: range(3), _check_native,
                              "bounded: native numeric path - random gates on random placements vs the element-wise definition (n<=5, arity<=4), built-in circuits incl. H, "
                              "the same wrapped gates with equal parameters used twice in one process, SymbolicSimulator vs to_unitary", exhaustive=False, timeout=600))
